@@ -71,6 +71,9 @@ void sleep_ns(uint64_t ns);
 // orders two threads - "wait until the canceller thread has finished, then destroy the engine" - it says so with these.
 void hb_release(const void* tag);
 void hb_acquire(const void* tag);
+// "I have seen (through live_threads / live_with_role_prefix / block_until) that the simulated threads I waited for have
+// exited": everything they did happens before what the caller does next.  (A detached thread cannot be joined.)
+void hb_acquire_thread_exits();
 
 // spawn a simulated thread (detached unless joinable); returns its sim id
 int spawn(const char* role, std::function<void()> fn);
